@@ -11,13 +11,13 @@ import gen_submit
 from gen_submit import width, enum_table
 
 LOCALS = {"len": 0, "partial_block_len": 1, "num_blocks": 2}
-IGNORED_PTRS = ("aligned_frame_buffer", "mh_sha1_segs_digests", "mh_sha256_segs_digests")
+IGNORED_PTRS = ("aligned_frame_buffer", "mh_sha1_segs_digests", "mh_sha256_segs_digests", "murmur3_x64_128_digest")
 
 
 def clang_json(repo, rel, flt):
     cmd = ["clang-14", "-fsyntax-only", "-Wno-everything", "-fgnuc-version=4.9.0", "-Xclang", "-ast-dump=json",
            "-Xclang", "-ast-dump-filter=" + flt] + ["-I" + os.path.join(repo, d) for d in INC] + \
-          ["-I" + os.path.join(repo, os.path.dirname(rel)), os.path.join(repo, rel)]
+          ["-I" + os.path.join(repo, os.path.dirname(rel)), "-I" + os.path.join(repo, "mh_sha1"), os.path.join(repo, rel)]
     p = subprocess.run(cmd, capture_output=True, text=True)
     if p.returncode != 0:
         raise NoFit("clang failed: " + p.stderr[:300])
@@ -213,11 +213,17 @@ class Tr(gen_submit.Tr):
                     if cal == "memset" and len(a) == 3 and self.ptr(a[0]) == ("part", None) and self.const(a[1]) == 0 and self.const(a[2]) is not None:
                         emit(".clrPart %d" % self.const(a[2]))
                         continue
-                    if re.fullmatch(r"_mh_sha(1|256)_block_\w+", cal) and len(a) == 4:
+                    stitched = re.fullmatch(r"_mh_sha1_murmur3_x64_128_block_\w+", cal) is not None
+                    if (re.fullmatch(r"_mh_sha(1|256)_block_\w+", cal) and len(a) == 4) or (stitched and len(a) == 5):
                         self.blocks.add(cal)
                         base, off = self.ptr(a[0])
+                        # the stitched block function takes the murmur state pointer before the block count
+                        if stitched:
+                            m0 = strip(a[3])
+                            if m0.get("kind") != "DeclRefExpr" or m0.get("referencedDecl", {}).get("name") != "murmur3_x64_128_digest":
+                                raise NoFit("murmur state argument of " + cal)
                         if off is None and base in ("part", "input"):
-                            emit(".%s (%s)" % ("blockPart" if base == "part" else "blockIn", self.expr(a[3])))
+                            emit(".%s (%s)" % ("blockPart" if base == "part" else "blockIn", self.expr(a[-1])))
                             continue
                     raise NoFit("call " + cal)
                 raise NoFit("statement " + str(k))
@@ -230,14 +236,17 @@ class Tr(gen_submit.Tr):
 SOURCES = [("mh_sha1/mh_sha1_update_base.c", "_mh_sha1_update_base"), ("mh_sha1/mh_sha1.c", "_mh_sha1_update_"),
            ("mh_sha1/mh_sha1_avx512.c", "_mh_sha1_update_"),
            ("mh_sha256/mh_sha256_update_base.c", "_mh_sha256_update_base"), ("mh_sha256/mh_sha256.c", "_mh_sha256_update_"),
-           ("mh_sha256/mh_sha256_avx512.c", "_mh_sha256_update_")]
+           ("mh_sha256/mh_sha256_avx512.c", "_mh_sha256_update_"),
+           ("mh_sha1_murmur3_x64_128/mh_sha1_murmur3_x64_128_update_base.c", "_mh_sha1_murmur3_x64_128_update_base"),
+           ("mh_sha1_murmur3_x64_128/mh_sha1_murmur3_x64_128.c", "_mh_sha1_murmur3_x64_128_update_"),
+           ("mh_sha1_murmur3_x64_128/mh_sha1_murmur3_x64_128_avx512.c", "_mh_sha1_murmur3_x64_128_update_")]
 
 
 def main(argv=None):
     argv = argv or sys.argv[1:]
     repo, lean = argv[0], argv[1]
     enums = enum_table(repo)
-    for hdr in ("include/mh_sha1.h", "include/mh_sha256.h"):
+    for hdr in ("include/mh_sha1.h", "include/mh_sha256.h", "include/mh_sha1_murmur3_x64_128.h"):
 
         def walk(n):
             if n.get("kind") == "EnumConstantDecl":
@@ -254,7 +263,7 @@ def main(argv=None):
         if not os.path.exists(os.path.join(repo, rel)):
             continue
         for d in clang_json(repo, rel, flt):
-            if d.get("kind") != "FunctionDecl" or not re.fullmatch(r"_mh_sha(1|256)_update_\w+", d.get("name", "")) or d["name"] in seen:
+            if d.get("kind") != "FunctionDecl" or not re.fullmatch(r"_mh_sha(1|256|1_murmur3_x64_128)_update_\w+", d.get("name", "")) or d["name"] in seen:
                 continue
             cs = [c for c in kids(d) if c.get("kind") == "CompoundStmt"]
             if not cs:
